@@ -30,8 +30,9 @@ RULE = ("inputs: (a) corpus archives damaged (bit flips, truncations, overwrites
         "VmHWM rise <= %d MiB, only Exception subclasses escape, worker exit status. (d) histories in one interpreter: one input x one sequence "
         "repeated 40 (quick) / 150 (thorough) times, on intact, damaged and structurally mutated archives (every NUMBER := 2^31; thorough also 0, 0xff): "
         "at quiescent points (after gc.collect) open descriptors, live Python threads, native threads (with a counter at the pyppmd boundary), "
-        "resident memory and live allocator blocks must not grow with the number of sessions; steady block growth is then measured in bytes under "
-        "tracemalloc and attributed to source lines (growth allocated inside a codec library's own call is reported separately). "
+        "resident memory and live allocator blocks must not grow with the number of sessions; steady block growth is then measured as bytes reachable "
+        "from the interpreter's tracked objects (what pure-Python code keeps is reachable; what a native library keeps through a leaked reference "
+        "count is not) and reported with tracemalloc's allocation sites. "
         "Cell = (input family, mutation class, sequence shape, outcome)."
         % (SEQ_CPU_BUDGET, RSS_BUDGET_KB // 1024))
 ASSUMPTIONS = ["budgets calibrated on the valid corpus (largest valid sequence < 0.05 s CPU, < 20 MiB RSS rise): two orders of magnitude headroom",
@@ -250,24 +251,36 @@ def _native_threads():
     return 0
 
 
-HEAP_GROWTH_PER_SESSION = 200  # bytes kept per session, steadily, not counting what codec libraries allocate inside their own calls
+HEAP_GROWTH_PER_SESSION = int(os.environ.get("VF_C05_HEAP_THRESHOLD", "200"))  # reachable bytes kept per session, steadily
 
 
-_codec_line = {}
+def _reachable_bytes():
+    """Size of everything reachable from the interpreter's gc-tracked objects (containers, instances, frames,
+    modules) plus their untracked direct referents (bytes, str, int ...), at a quiescent point."""
+    import gc
 
-
-def _is_codec_call(filename, lineno):
-    """True when that source line of py7zr/compressor.py is a wrapper's hand-over to a codec library object
-    (self.decoder.decode(..), self.encoder.flush(), self._decompressor.decompress(..) ...): memory allocated with
-    that line innermost was allocated by the library, not by py7zr."""
-    import linecache
-    import re
-
-    k = (filename, lineno)
-    if k not in _codec_line:
-        text = linecache.getline(filename, lineno)
-        _codec_line[k] = bool(filename.endswith("/py7zr/compressor.py") and re.search(r"self\.(_?decoder|_?encoder|_?decompressor|_?compressor|cipher|lzma_\w+)\.\w+\(", text))
-    return _codec_line[k]
+    gc.collect()
+    seen = set()
+    total = 0
+    for o in gc.get_objects():
+        i = id(o)
+        if i in seen:
+            continue
+        seen.add(i)
+        try:
+            total += sys.getsizeof(o)
+        except Exception:
+            pass
+        for r in gc.get_referents(o):
+            if not gc.is_tracked(r):
+                j = id(r)
+                if j not in seen:
+                    seen.add(j)
+                    try:
+                        total += sys.getsizeof(r)
+                    except Exception:
+                        pass
+    return total
 
 
 def _nfds():
@@ -404,8 +417,11 @@ def _run_repeat(case):
         if drss > 48 * 1024 and not lib_threads:
             viol.append({"key": "leak/memory/%s" % kind, "what": "%s: resident memory grew by %d MiB after the warm-up (input %d bytes)" % (tag, drss // 1024, len(data))})
         if steady_blocks >= half and not lib_threads and not restart:
-            # at least one more live block per session in both halves of the run: measure bytes and name the sites
-            # (second, shorter history under tracemalloc; its slowdown is why it is not the first pass)
+            # At least one more live block per session in both halves of the run. Second, shorter history:
+            # (1) verdict: bytes *reachable* from the interpreter's tracked objects. py7zr is pure Python: what it keeps
+            #     (a cache, a list, a registry) is reachable from some container; what a native library keeps by a
+            #     leaked reference count (inflate64 keeps every inflate() argument, pybcj 40 bytes per decoder) is not.
+            # (2) report: tracemalloc growth by allocation site (its slowdown is why it is not the first pass).
             import tracemalloc
 
             obs["heap_growth_measured"] = 1
@@ -414,8 +430,12 @@ def _run_repeat(case):
                 snaps = []
 
                 def heap():
-                    snaps.append(tracemalloc.take_snapshot())
-                    return tracemalloc.get_traced_memory()[0]
+                    r = _reachable_bytes()
+                    sn = tracemalloc.take_snapshot()  # kept on disk: in memory it would itself be reachable growth
+                    snaps.append(os.path.join(d, "snap%d" % len(snaps)))
+                    sn.dump(snaps[-1])
+                    del sn
+                    return (r, tracemalloc.get_traced_memory()[0])
 
                 r2, w2 = 20, 4
                 try:
@@ -424,36 +444,18 @@ def _run_repeat(case):
                     b2 = None
                 if b2 is not None:
                     h2 = (r2 - w2) // 2
-                    flt = [tracemalloc.Filter(False, tracemalloc.__file__), tracemalloc.Filter(False, "/verif/*")]
-                    fs = [sn.filter_traces(flt) for sn in snaps[-3:]]
-
-                    def split(sa, sb):
-                        """growth between two snapshots -> (bytes not allocated below a codec-library call, library bytes, sites)"""
-                        own = lib = 0
-                        sites = []
-                        for st in sb.compare_to(sa, "traceback"):
-                            if not st.size_diff:
-                                continue
-                            fr = [f for f in st.traceback if "/py7zr/" in f.filename]
-                            inner = fr[-1] if fr else None
-                            if inner is not None and inner == st.traceback[-1] and _is_codec_call(inner.filename, inner.lineno):
-                                lib += st.size_diff
-                            else:
-                                own += st.size_diff
-                                f = inner or st.traceback[-1]
-                                sites.append((st.size_diff, "%+d B in %+d blocks at %s:%d" % (st.size_diff, st.count_diff, os.path.basename(f.filename), f.lineno)))
-                        sites.sort(reverse=True)
-                        return own, lib, [t for _, t in sites[:3]]
-
-                    o1, l1, _ = split(fs[0], fs[1])
-                    o2, l2, _ = split(fs[1], fs[2])
-                    _, _, sites = split(fs[0], fs[2])
-                    per = min(o1, o2) // h2
-                    obs["max_steady_heap_growth_bytes_per_session"] = per
-                    obs["max_steady_codec_library_heap_growth_bytes_per_session"] = min(l1, l2) // h2
+                    per = min(m2[0] - b2[5][0], e2[5][0] - m2[0]) // h2
+                    per_all = min(m2[1] - b2[5][1], e2[5][1] - m2[1]) // h2
+                    obs["max_steady_reachable_growth_bytes_per_session"] = per
+                    obs["max_steady_allocator_growth_bytes_per_session"] = per_all
                     if per >= HEAP_GROWTH_PER_SESSION:
-                        viol.append({"key": "leak/heap/%s" % kind, "what": "%s: the interpreter heap grows steadily by %d bytes per session outside codec-library calls (input %d bytes); "
-                                     "largest growth sites: %s" % (tag, per, len(data), "; ".join(sites))})
+                        flt = [tracemalloc.Filter(False, tracemalloc.__file__), tracemalloc.Filter(False, "/verif/*")]
+                        sites = []
+                        for st in tracemalloc.Snapshot.load(snaps[-1]).filter_traces(flt).compare_to(tracemalloc.Snapshot.load(snaps[-3]).filter_traces(flt), "traceback")[:3]:
+                            fr = [f for f in st.traceback if "/py7zr/" in f.filename] or list(st.traceback)
+                            sites.append("%+d B in %+d blocks at %s:%d" % (st.size_diff, st.count_diff, os.path.basename(fr[-1].filename), fr[-1].lineno))
+                        viol.append({"key": "leak/heap/%s" % kind, "what": "%s: objects reachable in the interpreter grow steadily by %d bytes per session (input %d bytes; allocator growth %d B/session); "
+                                     "largest allocation sites: %s" % (tag, per, len(data), per_all, "; ".join(sites))})
             finally:
                 tracemalloc.stop()
     cell = "repeat|%s|%s|%s|%s" % (cls, "+".join(seq), case["open"], outcome.split(":")[0])
